@@ -115,8 +115,9 @@ CLAIMS = {
         "documents and their token/character mutations; monitors for the three sentences on the real builder; lexer rule order, token texts, identifier "
         "ranges tied by decide to facts regenerated from antlr/grulev3.g4.",
         note="What runs in /repo is the generated ANTLR lexer/parser (serialized ATN), not the grammar file: their agreement with the model is differential "
-        "validation. Proved at token level: C17_valid_documents_parse (every sequence of well-formed rules is read back from its tokens as exactly these rules, "
-        "no error; print/parse round trip R10). Not proved: the lexer step, and the converse (what the recogniser accepts derives from the grammar). Fixes 3cd0826 (a "
+        "validation. Proved at token level: C17_valid_documents_parse / C17_parseDoc_roundtrip (every sequence of well-formed rules is read back from its tokens as "
+        "exactly these rules, no error, with the parser's own fuel; round trip R10), C17_illegal_start_rejected, C17_leading_whitespace. Not proved: the lexer step "
+        "in general, and the converse (what the recogniser accepts derives from the grammar). Fixes 3cd0826 (a "
         "rejected resource adds no rule) and 2e94e10 (salience out of range is an error, not a panic) in /repo.",
         tech="Lean 4 executable front-end model + theorems on the builder's effect + regenerated lexer facts (decide ties) + mutation-based differential correspondence", ref="5.C17"),
  "C18": dict(text="Lean model of pkg/JsonResource.go function by function (Json/Translate: depth-dependent bracketing, noWrap, single-operand not, number "
@@ -126,7 +127,8 @@ CLAIMS = {
         "C18_operand_wrapped (where parentheses are added). Tie: the real translator's text equals the model's byte for byte on generated documents; the model's "
         "parse of that text equals Sem modulo grouping parentheses; and, independent of the model's parser, the real engine run on the translated text agrees with "
         "the real engine run on the explicitly grouped meaning (outcome, facts, fired rules); name/description/salience compared with the document.",
-        note="The meaning theorem 'parse(translate j) = Sem j for every tree' is not proved (it needs the print/parse round trip of the front end); it is "
+        note="Also proved: C18_const_string — unquote(quoteGo s) = s for every string over the modelled IsPrint table (the 'string constants round-trip exactly' "
+        "sentence). The meaning theorem 'parse(lex(translate j)) = Sem j for every tree' is not proved (the token-level round trip is, the lexer step is not); it is "
         "validated on every run as described. encoding/json's decoding into the GruleJSON struct and unicode.IsPrint (a table; modelled for ASCII and 23 listed "
         "code points, others are reported unmodelled) are modelled in the driver, not verified. Fixes af5d32f, 11fbd47, a61ddb2, 93e05b8, 0a50cc6 in /repo.",
         tech="Lean 4 executable translator + meaning models, rejection theorems + byte-level correspondence + meaning check on the real engine", ref="5.C18"),
